@@ -338,6 +338,83 @@ def run_history(spec, hseed, steps, driver, structural=True, behavioural=True):
 
 
 # ------------------------------------------------------------------------------------------- explore / search / replay
+class DropsCache:
+    """a value whose pickled copy differs from the object in memory (a cache that is not serialised)"""
+
+    def __init__(self):
+        self.data, self.cache = [1, 2], "warm"
+
+    def __getstate__(self):
+        return {"data": self.data}
+
+    def __setstate__(self, st):
+        self.data, self.cache = st["data"], None
+
+
+class StrSub(str):
+    pass
+
+
+def _canon(v):
+    if isinstance(v, DropsCache):
+        return "DropsCache(data=%r, cache=%r)" % (v.data, v.cache)
+    return "%s:%r" % (type(v).__name__, v)
+
+
+BUNDLED = {
+    "pickle": ("PickleFileStore", DropsCache),
+    "json": ("JsonFileStore", lambda: {"t": (1, 2), "n": None}),
+    "binary": ("BinaryFileStore", lambda: bytearray(b"abc")),
+    "text": ("TextFileStore", lambda: StrSub("x\r\ny")),
+}
+
+
+def bundled_readback_cases(only=None):
+    """The value clause on the BUNDLED stores: values whose read-back legitimately differs from the object the call returned
+    (a pickled copy without its unserialised cache, JSON's tuple -> list, bytearray -> bytes, a str subclass -> str).  A
+    consumer (positional and keyword) and the caller must get the read-back form - in the run that rebuilds the value exactly
+    as in a later run that finds it up to date."""
+    import os
+    import tempfile
+    import uberjob.stores as st
+    viol, done = [], 0
+    for kind, (cls_name, make) in BUNDLED.items():
+        for workers in (1, 3):
+            if only and [kind, workers] != list(only):
+                continue
+            cls = getattr(st, cls_name)
+            with tempfile.TemporaryDirectory() as d:
+                probe = cls(os.path.join(d, "probe"))
+                probe.write(make())
+                expect = _canon(probe.read())
+                got = []
+                plan, reg = uberjob.Plan(), uberjob.Registry()
+                a = plan.call(make)
+                reg.add(a, cls(os.path.join(d, "value")))
+                b = plan.call(lambda x: got.append(("pos", _canon(x))) or 1, a)
+                c = plan.call(lambda *, x: got.append(("kw", _canon(x))) or 2, x=a)
+                for rnd in ("rebuilding", "up-to-date"):
+                    del got[:]
+                    out = uberjob.run(plan, registry=reg, output=[a, b, c], max_workers=workers, progress=None)
+                    done += 1
+                    seen = dict(got)
+                    for how in ("pos", "kw"):
+                        if seen.get(how) != expect:
+                            viol.append({"property": "C09", "kind": "bundled-readback", "case": [kind, workers],
+                                         "what": f"{cls_name}, {rnd} run, {workers} worker(s): the consumer taking the stored value as a "
+                                                 f"{'positional' if how == 'pos' else 'keyword'} argument received {seen.get(how)}; "
+                                                 f"read() after write() gives {expect}"})
+                    if _canon(out[0]) != expect:
+                        viol.append({"property": "C09", "kind": "bundled-readback", "case": [kind, workers],
+                                     "what": f"{cls_name}, {rnd} run, {workers} worker(s): run returned {_canon(out[0])} for the stored "
+                                             f"value; read() after write() gives {expect}"})
+                    if viol:
+                        break
+            if viol:
+                return viol, done
+    return viol, done
+
+
 def explore_phys(ctx, n_hist, steps, structural=True, behavioural=True, salt=9):
     rng = random.Random(ctx.seed * 7919 + salt)
     viol, dis, tot, samples, distinct = [], [], {}, [], set()
@@ -387,6 +464,10 @@ def explore(ctx):
     res["disagreements"] += rn["disagreements"]
     cov.update(rn["coverage"])
     cov["evaluations"] += rn["coverage"].get("norm_effects", 0)
+    if not res["violations"]:
+        v, n = bundled_readback_cases()
+        res["violations"] += v
+        cov["bundled_readback_runs"] = n
     if not res["violations"] and not res["disagreements"]:
         if cov.get("norm_rebuilt", 0) == 0 or cov.get("norm_consumed_readbacks", 0) == 0 or cov.get("norm_partial_runs", 0) == 0:
             raise Broken("correspondence", "generator-floor", "no run with normalising stores rebuilt a value / consumed a read-back")
@@ -410,6 +491,8 @@ def search(ctx, broken):
         found += explore_phys(c, 500, steps=5, structural=False)["violations"]
         if not found:
             found += norm_exec.explore_norm(c, 300, steps=5, props=PROPS)["violations"]
+        if not found:
+            found += bundled_readback_cases()[0]
         if found:
             break
     return found
@@ -419,6 +502,9 @@ def replay(ctx, payload):
     w = payload.get("witness", payload)
     if w.get("kind") == "norm":
         return norm_exec.replay_norm(ctx, w, PROPS)
+    if w.get("kind") == "bundled-readback":
+        v, _ = bundled_readback_cases(only=w["case"])
+        return v[0]["what"] if v else None
     # the real scheduler breaks ties by object identity (greedy priorities over sets of nodes): a schedule-dependent
     # witness may need more than one attempt
     for _ in range(4):
